@@ -1,6 +1,18 @@
 """Property -> packs, bounded stand-ins, native replay harness, notes (read by pyvc.check)."""
 
 REGISTRY = {
+    "C07": dict(
+        packs=["c07"], level="proof",
+        replay=dict(script="replay/c07.py", args=["4"], timeout=900),
+        bounded=[dict(name="filter_args-vs-interpreter", script="replay/c07.py", args=["4"],
+                      bound="every signature with <= 4 parameters (5 kinds x default/no default, Python's well-formedness), as plain function and as bound method, x every call shape "
+                            "(36801 calls, 4345 accepted by the interpreter itself); also validates the pybind / accepts specification against real calls")],
+        trusted=["inspect.signature returns a well-formed parameter list matching the function (kinds ordered, one */** at most, distinct identifiers): block axioms of contracts/c07.py",
+                 "sorted(kwargs.items()) enumerates each keyword once"],
+        assumptions=["plain functions in the unbounded proof; bound methods (self prepended) and functools.partial objects only through the bounded oracle",
+                     "ignore list: distinct names that are keys of the full result"],
+        undecided_clauses=[],
+    ),
     "C19": dict(
         packs=["c19"], level="proof",
         replay=dict(script="replay/c19.py", args=["small"], timeout=900, python="/verif/.venv_np/bin/python"),
@@ -115,7 +127,7 @@ REGISTRY = {
                       bound="call-form equivalence / redefinition / crash-state scenarios on a real cache directory (every truncation length of func_code.py, "
                             "missing or torn metadata and output, leftover temporaries, with and without expires_after); extract_first_line on every prefix"), dict(name="filter_args-vs-interpreter", script="replay/c07.py", args=["4"],
                           bound="every signature with <= 4 parameters x every call shape (31441 calls, 3591 accepted by Python)")],
-        trusted=["abstract store contracts (contracts/mem.py docstring)", "KEY = hash(filter_args(...)) identifies the bound arguments outside the ignore list (C07 oracle bounded; C08)",
+        trusted=["abstract store contracts (contracts/mem.py docstring)", "KEY = hash(filter_args(...)) identifies the bound arguments outside the ignore list (filter_args: C07 contract; hashing: C08)",
                  "the cached function is pure and get_func_code returns its current source"],
         assumptions=["mmap_mode is None", "single process between two store calls (concurrency: C11)"],
         undecided_clauses=["compression settings do not enter the logic under contract (they are passed through to numpy_pickle.dump, C03)"],
@@ -224,6 +236,13 @@ NOT_APPLICABLE = {
 }
 
 MANIFEST_TEXT = {
+    "C07": dict(
+        text="Unbounded proof over signatures of arbitrary length: four inductive loop invariants (ArrList / map encodings with a ghost inverse of the name list) show that filter_args, "
+             "for every call Python accepts (`accepts`, DESIGN Appendix D), raises nothing and returns exactly pybind(sig, args, kwargs) minus the ignore list - each named parameter mapped to the "
+             "positional / keyword / default value Python binds, surplus positionals under '*' as args[np:], surplus keywords (incl. names of positional-only parameters) under '**'.",
+        note="Assumed: inspect.signature well-formedness (block axioms), plain functions. The repaired filter_args (fix commit) is what is proved; reverting any part of the fix leaves "
+             "obligations undischarged and the bounded interpreter oracle replays a concrete signature and call.",
+    ),
     "C19": dict(
         text="Payload framing arithmetic proved for all positions and sizes: write_array stores pad = 16 - ((pos + 1) mod 16) in one byte (1 <= pad <= 16) followed by pad filler bytes so "
              "that the data starts 16-byte aligned, then exactly nbytes of data (loop invariant over the chunks); read_array consumes exactly 1 + pad + count*itemsize bytes (chunk loop invariant), "
